@@ -321,7 +321,10 @@ CLAIMED = {
        "IndependentMultitaskVariationalStrategy with task_indices gives mean[i] = mu_{t_i}[i], cov[i, j] = K_{t_i}[i, j] [t_i == t_j]; "
        "LMCVariationalStrategy.__call__ gives mean[i, t] = sum_l mu_l[i] W[l, t], cov[(i,t),(j,u)] = sum_l K_l[i, j] W[l, t] W[l, u] + jitter_val I in the "
        "interleaved layout (all tasks) and the same with the selected coefficients (one task per input; _select_lmc_coefficients trusted); both wrappers' "
-       "kl_divergence() = the base KL summed over the configured task / latent dimension (dims -1, -2; batch ranks 1, 2). Bounded tier (not counted): every (strategy x distribution) pair (standard, unwhitened, CIQ at tight "
+       "kl_divergence() = the base KL summed over the configured task / latent dimension (dims -1, -2; batch ranks 1, 2); Lean 4 / Mathlib lemmas "
+       "(lean/Variational.lean, re-checked by lean on every run, axioms audited) that the whitened and unwhitened forms pinned down by these contracts both equal "
+       "the property's Kxx - Kxz Kzz^-1 (Kzz - S) Kzz^-1 Kzx / mX + Kxz Kzz^-1 (m - mz) for S = L S~ L^T, m = mz + L m~, and that the three terms of the "
+       "whitened KL equal those of KL(q(u) || p(u)). Bounded tier (not counted): every (strategy x distribution) pair (standard, unwhitened, CIQ at tight "
        "tolerance, batch-decoupled, orthogonally decoupled, grid-interpolation, LMC, independent multitask; Cholesky, mean-field, delta, natural, "
        "tril-natural) on m <= 5, n <= 6, batch ranks 0..2: eval-mode mean / full covariance / KL and training-mode mean / variance against dense "
        "float64 closed forms; whitened = unwhitened for the same q(u); q(u) = p(u) gives the prior and KL = 0; wrappers mix with the stated "
